@@ -145,7 +145,7 @@ def _cases(tier, seed):
                     cases.append(("random1", {"model": rec, "prog": p}))
     # exhaustive depth 2: (model, alphabet, shapes)
     if tier == "quick":
-        plan = [("toy", "core", (0, 2, 3, 4, 6, 7)), ("chain", "core", (2,))]
+        plan = [("toy", "core", (0, 3, 4, 6, 7)), ("chain", "core", (2,))]
     else:
         plan = [("toy", "full", range(8)), ("chain", "full", range(8)), ("toy-min2", "core", range(8)),
                 ("toy-user", "core", range(8)), ("toy-fixed", "core", (0, 3, 4, 6))]
@@ -572,9 +572,28 @@ def replay(payload_replay: dict):
     return _reexec(["replay"], payload_replay)["failure"]
 
 
+def known_witnesses(*results):
+    """{class: [witness, ...]} over the failures of the given run() results, plus the class-level id "random:<class>"
+    that the seeded part uses for minimal histories of an open class which the enumerated part does not contain"""
+    out = {}
+    for r in results:
+        for f in r["failures"]:
+            out.setdefault(f["key"], set()).add(f["witness"])
+    for k in list(out):
+        out[k].add("random:" + k)
+    return {k: sorted(v) for k, v in sorted(out.items())}
+
+
 if __name__ == "__main__":
+    # python -m bcc.drivers.C03 run <tier> <seed> <out.json> | replay <case.json -> overwritten with the result>
+    #                           known <out.json> <result.json> ...
     if sys.argv[1] == "run":
         res = _run(sys.argv[2], int(sys.argv[3]))
+    elif sys.argv[1] == "known":
+        res = known_witnesses(*[json.load(open(f)) for f in sys.argv[3:]])
+        with open(sys.argv[2], "w") as fh:
+            json.dump(res, fh, indent=1)
+        sys.exit(0)
     else:
         with open(sys.argv[-1]) as fh:
             res = {"failure": _execute_in_child(json.load(fh))}
